@@ -1554,6 +1554,30 @@ mod convert {
             (self.program, self.files)
         }
 
+        /// Check that the writer can advance from the previous row to the given position.
+        ///
+        /// `LineProgram::generate_row` and `LineProgram::end_sequence` require that the
+        /// address offset does not decrease, is a multiple of the minimum instruction
+        /// length, and that the operation advance is not negative.
+        fn check_advance(&self, address_offset: u64, op_index: u64) -> ConvertResult<()> {
+            let prev_row = &self.program.prev_row;
+            let line_encoding = &self.program.line_encoding;
+            let min_len = u64::from(line_encoding.minimum_instruction_length);
+            let max_ops = u64::from(line_encoding.maximum_operations_per_instruction);
+            let valid = address_offset
+                .checked_sub(prev_row.address_offset)
+                .filter(|_| address_offset.checked_rem(min_len) == Some(0))
+                .and_then(|advance| (advance / min_len).checked_mul(max_ops))
+                .and_then(|advance| advance.checked_add(op_index))
+                .and_then(|advance| advance.checked_sub(prev_row.op_index))
+                .is_some();
+            if valid {
+                Ok(())
+            } else {
+                Err(ConvertError::UnsupportedLineInstruction)
+            }
+        }
+
         /// Convert the entire program.
         ///
         /// Returns the program and a mapping from source file index to `FileId`,
@@ -1572,9 +1596,11 @@ mod convert {
                         self.set_address(address);
                     }
                     ConvertLineRow::Row(row) => {
+                        self.check_advance(row.address_offset, row.op_index)?;
                         self.generate_row(row);
                     }
                     ConvertLineRow::EndSequence(length) => {
+                        self.check_advance(length, self.program.row.op_index)?;
                         self.end_sequence(length);
                     }
                 }
